@@ -21,7 +21,7 @@ type StepRecipe struct {
 	AnyData      bool        `json:"any_data,omitempty"`       // step data type `any` and no initializer (the hello-world shape)
 	SameSignalID bool        `json:"same_signal_id,omitempty"` // an emitter shares its ID with the handler
 	// SigVariant selects the data schema of this step's "poke" signal: steps of one plugin may declare the same
-	// signal ID with different data schemas (0: k in 0..1000, tag default "none"; 1: k in 0..5; 2: tag default "v2")
+	// signal ID with different data schemas (0: k in 0..1000, tag default "none"; 1: k in 0..5; 2: tag default "v2"; 3: nothing required)
 	SigVariant int `json:"sig_variant,omitempty"`
 }
 
@@ -106,7 +106,8 @@ func errorScope() *schema.ScopeSchema {
 
 // emptyScope is an output without properties ("done, nothing to report").
 func emptyScope() *schema.ScopeSchema {
-	return schema.NewScopeSchema(schema.NewObjectSchema("Empty", map[string]*schema.PropertySchema{}))
+	// declared without a property map at all, as callers of NewObjectSchema(id, nil) do
+	return schema.NewScopeSchema(schema.NewObjectSchema("Empty", nil))
 }
 
 // emptyBadKinds are the handler behaviours that return non-conforming data for the property-less output.
@@ -126,15 +127,19 @@ func pokeScope() *schema.ScopeSchema { return pokeScopeVariant(0) }
 
 func pokeScopeVariant(variant int) *schema.ScopeSchema {
 	kMax, tagDefault := int64(1000), `"none"`
+	kRequired, kDefault := true, (*string)(nil)
 	switch variant {
 	case 1:
 		kMax = 5
 	case 2:
 		tagDefault = `"v2"`
+	case 3:
+		// nothing is required: an empty object is an acceptable payload (a nil payload still is not)
+		kRequired, kDefault = false, strp("0")
 	}
 	return schema.NewScopeSchema(
 		schema.NewObjectSchema("Poke", map[string]*schema.PropertySchema{
-			"k":    schema.NewPropertySchema(schema.NewIntSchema(i64(0), i64(kMax), nil), nil, true, nil, nil, nil, nil, nil),
+			"k":    schema.NewPropertySchema(schema.NewIntSchema(i64(0), i64(kMax), nil), nil, kRequired, nil, nil, nil, kDefault, nil),
 			"meta": schema.NewPropertySchema(schema.NewRefSchema("PokeMeta", nil), nil, false, nil, nil, nil, nil, nil),
 		}),
 		schema.NewObjectSchema("PokeMeta", map[string]*schema.PropertySchema{
